@@ -52,6 +52,7 @@ func runC18(r *Run) {
 	if r.Want("e2e") {
 		c18E2E(r)
 	}
+	c18WriteThenCancel(r)
 }
 
 // ---------------------------------------------------------------- the scripted world around one demux
